@@ -128,7 +128,7 @@ type appOp struct {
 	// state of the channel on that node right before the call (when known)
 	Pre   Snap
 	PreOK bool
-	// state right after the call returned (Resume only)
+	// state right after the call returned (Resume and UpdateValidationStatus; the query flushes the channel's event queue)
 	Post   Snap
 	PostOK bool
 }
@@ -146,6 +146,12 @@ func (nr *netRun) api(n *Node, kind string, x *xfer, f func() error) *appOp {
 		c.Returned = true
 		return op
 	}
+	if kind == "UpdateValidationStatus" && x.opened {
+		// the state the decision will be taken on (the resume rule of C08 compares the new limit with this progress)
+		if ps, ok := n.State(x.chid); ok {
+			op.Pre, op.PreOK = ps, true
+		}
+	}
 	c.T0, c.S0 = time.Now(), nr.r.S.Steps
 	if x.opened {
 		op.HadActiveGS = n.GS.ActiveFor(x.chid.ID)
@@ -153,7 +159,7 @@ func (nr *netRun) api(n *Node, kind string, x *xfer, f func() error) *appOp {
 	c.Err = f()
 	c.T1, c.S1 = time.Now(), nr.r.S.Steps
 	c.Returned = true
-	if kind == "Resume" && c.Err == nil && x.opened && n.life == op.Life {
+	if (kind == "Resume" || kind == "UpdateValidationStatus") && c.Err == nil && x.opened && n.life == op.Life {
 		if ps, ok := n.State(x.chid); ok {
 			op.Post, op.PostOK = ps, true
 		}
@@ -541,7 +547,11 @@ func (nr *netRun) installApps() {
 				case mode < 8:
 					res.DataLimit = progress + uint64(1+r.Intn(2000))
 				case mode == 8:
-					res.DataLimit = progress // not above progress: stays paused; lift later
+					// not above the progress made so far: stays paused; lifted later
+					res.DataLimit = progress
+					if progress > 1 && r.Intn(2) == 0 {
+						res.DataLimit = progress - uint64(r.Intn(int(min(progress-1, 400))+1))
+					}
 				default:
 					if nr.cfg.rejects {
 						res.Accepted = false
@@ -965,6 +975,7 @@ func (nr *netRun) evaluate() {
 		nr.checkC09(x)
 		nr.checkC10(x)
 		nr.checkC11(x)
+		nr.checkC08(x)
 		nr.checkC19(x)
 		for _, n := range []*Node{nr.A, nr.B} {
 			for life := 0; life <= n.life; life++ {
@@ -1212,6 +1223,19 @@ func init() {
 		c.monitorB = r.Intn(3) == 0
 		return c
 	})})
+	limitsCfg := func(r *RunCtx) netCfg {
+		c := base(r)
+		c.limits = true
+		c.finalization, c.pauses, c.forcePause = r.Intn(3) == 0, r.Intn(4) == 0, r.Intn(4) == 0
+		c.allPull = []int{0, 1, 2}[r.Intn(3)]
+		// restarts (by the application, or by the monitor after a cut) while the responder sits at its limit
+		c.restarts = r.Intn(2) == 0
+		if r.Intn(3) == 0 {
+			c.cuts, c.monitorA = 1, r.Intn(2) == 0
+		}
+		return c
+	}
+	Register("C08", Stratum{Name: "net-limits-and-revalidation", Weight: 3, Fn: netTransfer(limitsCfg)})
 	Register("C11", Stratum{Name: "net-pauses", Weight: 4, Fn: netTransfer(pausesCfg)}, Stratum{Name: "net-mixed", Weight: 1, Fn: netTransfer(mixCfg)})
 	Register("C09", Stratum{Name: "net-closes", Weight: 4, Fn: netTransfer(closesCfg)}, Stratum{Name: "net-mixed", Weight: 2, Fn: netTransfer(mixCfg)})
 	Register("C10", Stratum{Name: "net-restarts", Weight: 4, Fn: netTransfer(restartsCfg)}, Stratum{Name: "net-mixed", Weight: 1, Fn: netTransfer(mixCfg)})
